@@ -28,6 +28,7 @@ import (
 
 	"github.com/dappledger/AnnChain/eth/log"
 	"github.com/dappledger/AnnChain/eth/metrics"
+	"github.com/dappledger/AnnChain/gemmill/utils/failpoint"
 	"github.com/syndtr/goleveldb/leveldb"
 	"github.com/syndtr/goleveldb/leveldb/errors"
 	"github.com/syndtr/goleveldb/leveldb/filter"
@@ -115,6 +116,7 @@ func (db *LDBDatabase) Path() string {
 
 // Put puts the given key / value to the queue
 func (db *LDBDatabase) Put(key []byte, value []byte) error {
+	failpoint.Write("ethdb", "put", key)
 	return db.db.Put(key, value, nil)
 }
 
@@ -160,6 +162,7 @@ func (db *LDBDatabase) Get(key []byte) ([]byte, error) {
 
 // Delete deletes the key from the queue and database
 func (db *LDBDatabase) Delete(key []byte) error {
+	failpoint.Write("ethdb", "delete", key)
 	return db.db.Delete(key, nil)
 }
 
@@ -413,6 +416,7 @@ func (b *ldbBatch) Delete(key []byte) error {
 }
 
 func (b *ldbBatch) Write() error {
+	failpoint.Write("ethdb", "batch", nil)
 	return b.db.Write(b.b, nil)
 }
 
